@@ -98,6 +98,9 @@ def op_cases(ctx, n):
     lines, meta = [], []
     for k in range(n):
         a = ctx.rng.choice(sets); b = ctx.rng.choice(sets)
+        if k % 2:
+            off = -ctx.rng.choice([3, 9])
+            a = ([v + off for v in a[0]], [v + off for v in a[1]]); b = ([v + off for v in b[0]], [v + off for v in b[1]])
         sc = ctx.rng.choice([1000, 2000, 10**6, 10**9])
         A = iset(a[0], a[1], sc); B = iset(b[0], b[1], sc)
         inp = dict(level="op", a=a, b=b, scale_ns=sc)
@@ -146,7 +149,8 @@ def run(ctx):
             if n == 4 and k % 3:      # thorough: a third of the 4-pair multisets
                 continue
             sc = SCALES[k % len(SCALES)]
-            pairs = [(s * sc, e * sc) for s, e in ms]
+            off = -2 if k % 2 else 0      # every second multiset straddles / lies below time 0
+            pairs = [((s + off) * sc, (e + off) * sc) for s, e in ms]
             ctx.rng.shuffle(pairs)
             form = forms[k % len(forms)] if n != 1 else (forms + ["scalar"])[k % 6]
             unit = units[(k // 7) % 3]
@@ -156,7 +160,7 @@ def run(ctx):
         sc = ctx.rng.choice(SCALES)
         pairs = []
         for _ in range(n):
-            s = ctx.rng.randrange(30); e = s + ctx.rng.choice([0, 0, 1, 1, 2, 3, 5, -1, -2])
+            s = ctx.rng.randrange(-10, 30); e = s + ctx.rng.choice([0, 0, 1, 1, 2, 3, 5, -1, -2])
             pairs.append((s * sc, e * sc))
         cases.append((pairs, ctx.rng.choice(forms), ctx.rng.choice(units)))
     ctor_cases(ctx, cases)
